@@ -104,6 +104,28 @@ fn eval(ctx: &Ctx, case: &Case) {
                     }
                     continue;
                 }
+                if *op >= 9 {
+                    // Clone semantics: 9 = clone the object, use the clone once and drop it; 10 = continue with a clone and
+                    // drop the original. Neither may influence what the surviving object computes.
+                    ctx.call();
+                    if *op == 9 {
+                        let c2 = c.clone();
+                        let _ = guard(|| c2.encrypt(&blocks[1]));
+                        if c2 != c {
+                            ctx.violation("Sm4Cipher", "clone-not-equal-to-original", format!("seq={:?}", seq), serde_json::to_value(case).unwrap());
+                            return;
+                        }
+                        drop(c2);
+                    } else {
+                        let c2 = c.clone();
+                        c = c2;
+                    }
+                    if i + 1 == seq.len() {
+                        check_one(ctx, case, &c, &k, &blocks[0], false, "history");
+                        check_one(ctx, case, &c, &k, &blocks[1], true, "history");
+                    }
+                    continue;
+                }
                 if *op >= 7 {
                     // a call that must fail (wrong block length) must leave the object untouched
                     ctx.call();
@@ -159,7 +181,7 @@ pub fn replay(ctx: &Arc<Ctx>, v: &Value) {
 
 pub fn run(ctx: &Arc<Ctx>) {
     refmodels::selftest::run(&[ctx.tier.pick("sm4", "sm4long")]).unwrap_or_else(|e| ctx.machinery_error(format!("reference self-test failed: {}", e)));
-    ctx.set_rule("keys x blocks over {0^128, 1^128, 128 single-bit, 16 byte patterns, standard vector, seeded}; derived families forcing every S-box index in every byte lane of round 1 (data path) and of the first key-schedule round; all op sequences to depth 4 over {enc b0, enc b1, dec b0, dec b1, rebuild the object with the same key / a key differing in the last byte / in the first byte, a refused decrypt / encrypt of a 15-byte block} (7381 histories per base key); every value of the first and of the last byte of key and block. Oracle: independent SM4 with algebraically generated S-box.");
+    ctx.set_rule("keys x blocks over {0^128, 1^128, 128 single-bit, 16 byte patterns, standard vector, seeded}; derived families forcing every S-box index in every byte lane of round 1 (data path) and of the first key-schedule round; all op sequences to depth 4 over {enc b0, enc b1, dec b0, dec b1, rebuild the object with the same key / a key differing in the last byte / in the first byte, a refused decrypt / encrypt of a 15-byte block, clone-use-drop the clone, continue with a clone and drop the original} (16105 histories per base key); every value of the first and of the last byte of key and block. Oracle: independent SM4 with algebraically generated S-box.");
     let nseed = ctx.tier.pick(4, 64);
     let keys = blocks128(ctx.seed, "c02keys", nseed);
     let blocks = blocks128(ctx.seed, "c02blocks", nseed);
@@ -230,7 +252,7 @@ pub fn run(ctx: &Arc<Ctx>) {
         let model = HistModel {
             batch: 64,
             inits: vec![vec![]],
-            actions: Box::new(move |h: &[u16]| if h.len() < depth { vec![0, 1, 2, 3, 4, 5, 6, 7, 8] } else { vec![] }),
+            actions: Box::new(move |h: &[u16]| if h.len() < depth { vec![0, 1, 2, 3, 4, 5, 6, 7, 8, 9, 10] } else { vec![] }),
             visit: Arc::new(move |h: &[u16]| {
                 if !h.is_empty() {
                     let c = Case::History { key: k2.clone(), seq: h.to_vec() };
@@ -242,7 +264,7 @@ pub fn run(ctx: &Arc<Ctx>) {
         let st = explore(model);
         ctx.depth(st.max_depth);
         ctx.cov("immutability_model", json!({"unique_states": st.unique_states, "generated": st.generated, "max_depth": st.max_depth}));
-        let expect: u64 = (0..=depth as u32).map(|d| 9u64.pow(d)).sum();
+        let expect: u64 = (0..=depth as u32).map(|d| 11u64.pow(d)).sum();
         if st.unique_states != expect {
             ctx.machinery_error(format!("immutability model visited {} states, expected {}", st.unique_states, expect));
         }
